@@ -2,7 +2,7 @@
 from gen import lib, sched, dbh
 
 PROP_FILE = "props/C06.v"
-FAMILIES = {"writer", "group"}
+FAMILIES = {"writer", "group", "bg"}
 RULE = ("sched (Tier A pause-point schedules): one thread is parked at a scheduling point where it "
         "does not hold the database mutex (reader: between releasing the mutex and reading; writer: "
         "before the WAL append, after it, between memtable inserts, after the inserts; background "
@@ -14,7 +14,9 @@ RULE = ("sched (Tier A pause-point schedules): one thread is parked at a schedul
         "after the read ended); scans and snapshot reads must be explained by one cut. Non-trivial: a "
         "schedule in which the armed thread actually parked; distinct by sha1. dbhist: multi-operation "
         "batches followed by close + reopen (log replay publishes sequence numbers too), then scans, "
-        "gets and snapshot reads compared with the map specification.")
+        "gets and snapshot reads compared with the map specification; batch-heavy histories with "
+        "snapshots and iterators that outlive overwrites, flushes and table compactions (a batch "
+        "stays whole in every snapshot).")
 TRUSTED = ["scheduling hooks (cfg raindb_verif) at the places where the database mutex is released; interleavings below that granularity (atomics, ArcSwap, skiplist internals) are assumed sequentially consistent"]
 ASSUMPTIONS = ["at most one parked thread plus queued writers per schedule (Tier A)"]
 
@@ -55,9 +57,19 @@ def gen_batch_reopen(tier, rng):
     return cases
 
 
+def gen_batch_snapshots(tier, rng):
+    """batches seen through snapshots and iterators that outlive later overwrites, flushes and
+    table compactions: a batch must stay whole in every snapshot for as long as the snapshot lives
+    (the compaction's retention horizon is the OLDEST live snapshot)"""
+    n = 30 if tier == "quick" else 1500
+    w = dict(put=10, batch=30, get=4, snap=14, iter=10, compact=8, reopen=1, wait=4)
+    w["del"] = 6
+    return [dbh.gen_history(rng, "s%d" % i, rng.choice([40, 80, 160]), w) for i in range(n)]
+
+
 def suites(tier, seed, rng):
     return [sched.SchedSuite(corpus() + sched.gen_cases(tier, rng, FAMILIES)),
-            dbh.DbSuite(gen_batch_reopen(tier, rng))]
+            dbh.DbSuite(gen_batch_reopen(tier, rng) + gen_batch_snapshots(tier, rng))]
 
 
 def replay_suites(rp):
@@ -81,6 +93,6 @@ def nontrivial(suite, case):
 def classify(suite, case):
     import re
     if suite == "dbhist":
-        return "dbhist:batch-then-reopen"
+        return "dbhist:batch-then-reopen" if case.startswith("b") else "dbhist:batches-under-snapshots"
     m = re.search(r" A\w+:([\w:]+)", case)
     return "sched:" + (m.group(1) if m else "none")
